@@ -83,6 +83,9 @@ def flags_for(role: str) -> Any:
         return make_flags([], cache_key='c04:forward')
     if role == 'web':
         return make_flags(['--enable-web-server'], plugins=[RouteA, RouteB], cache_key='c04:web')
+    if role == 'mixed':
+        # web routes and reverse-proxy routes side by side: one connection may address both kinds in any order
+        return make_flags(['--enable-web-server', '--enable-reverse-proxy'], plugins=[RouteA, RouteB, Rev], cache_key='c04:mixed')
     return make_flags(['--enable-reverse-proxy'], plugins=[Rev], cache_key='c04:reverse')
 
 
@@ -93,8 +96,8 @@ def build_request(role: str, spec: Dict[str, Any], hostports: Dict[str, bytes]) 
         hp = hostports[tgt]
         target = b'http://%s/f/%s' % (hp, rid)
         host = hp
-    elif role == 'web':
-        target = {'A': b'/wa/', 'B': b'/wb/', 'N': b'/no-such-route/'}[tgt] + rid
+    elif role == 'web' or (role == 'mixed' and tgt in ('WA', 'WB', 'N')):
+        target = {'A': b'/wa/', 'B': b'/wb/', 'WA': b'/wa/', 'WB': b'/wb/', 'N': b'/no-such-route/'}[tgt] + rid
         host = b'web.test'
     else:
         target = {'A': b'/ra/', 'B': b'/rb/', 'L': b'/rl/'}[tgt] + rid
@@ -114,7 +117,7 @@ def build_request(role: str, spec: Dict[str, Any], hostports: Dict[str, bytes]) 
 
 
 def expected_tag(role: str, spec: Dict[str, Any]) -> bytes:
-    name = {'forward': 'O', 'web': 'W', 'reverse': 'O'}[role] + spec['to']
+    name = spec['to'] if spec['to'] in ('WA', 'WB') else {'forward': 'O', 'web': 'W', 'reverse': 'O', 'mixed': 'O'}[role] + spec['to']
     return ('%s|%s|' % (name, spec['rid'])).encode()
 
 
@@ -129,7 +132,12 @@ def run_case(case: Dict[str, Any]) -> Dict[str, Any]:
     viol: List[Dict[str, Any]] = []
     obs: Dict[str, int] = {}
     sched: List[str] = []
-    feat = '%s|%s|%s' % (role, packing, 'multi' if len({s['to'] for s in specs}) > 1 else 'single')
+    # pipelined (sent without waiting for the previous response) AND a later request addresses something else than an earlier
+    # request that has to wait for its upstream: the later answer can overtake - classified apart (see known findings)
+    pipelined = packing not in ('keepalive', 'overlap')
+    overtaking = pipelined and role in ('reverse', 'mixed') and any(
+        specs[j]['to'] in ('A', 'B') and specs[k]['to'] != specs[j]['to'] for k in range(len(specs)) for j in range(k))
+    feat = '%s|%s|%s' % (role, packing, ('multi+overtaking' if overtaking else 'multi') if len({s['to'] for s in specs}) > 1 else 'single')
     origins: Dict[str, conv.AutoOrigin] = {}
     try:
         hostports: Dict[str, bytes] = {}
@@ -142,7 +150,7 @@ def run_case(case: Dict[str, Any]) -> Dict[str, Any]:
                 o = rig.add_origin('127.0.%d.%d' % (rng.randint(0, 250), rng.randint(2, 250)))
                 origins[nm] = conv.AutoOrigin(o, 'O' + nm, responder)
                 hostports[nm] = o.hostport
-            if role == 'reverse':
+            if role in ('reverse', 'mixed'):
                 _routes['A'] = b'http://%s/pa' % hostports['A']
                 _routes['B'] = b'http://%s/pb' % hostports['B']
                 _routes['A2'] = None
@@ -340,6 +348,15 @@ def run_case(case: Dict[str, Any]) -> Dict[str, Any]:
         viol.append({'key': '%s|loop-died:%s' % (feat, e.where()), 'detail': {'tb': e.tb[-1200:]}})
     finally:
         rig.close()
+    if overtaking:
+        # one mechanism, one class: role / packing / position go into the detail, not into the key
+        obs['overtaking_histories'] = 1
+        for v in viol:
+            kind = v['key'].split('|', 3)[3] if v['key'].count('|') >= 3 else v['key']
+            for pos in ('@first', '@later'):
+                kind = kind[:-len(pos)] if kind.endswith(pos) else kind
+            v['detail'] = dict(v.get('detail') or {}, role=role, packing=packing, original_key=v['key'])
+            v['key'] = 'pipelined-past-a-waiting-upstream|' + kind
     import zlib
     sh = zlib.crc32(''.join(sched).encode())
     n = len(specs)
@@ -360,7 +377,7 @@ def cases(tier: str, seed: int):
         role = ['forward', 'web', 'reverse'][i % 3]
         packing = packings[(i // 3) % len(packings)]
         nreq = rng.choice([1, 2, 2, 3, 3, 4, 6])
-        multi = rng.random() < 0.4 and (packing == 'keepalive' or role == 'web')
+        multi = rng.random() < 0.4 and (packing == 'keepalive' or role == 'web' or (role == 'reverse' and i % 2 == 0))
         reqs = []
         for k in range(nreq):
             to = rng.choice(['A', 'B']) if multi else 'A'
@@ -391,6 +408,21 @@ def cases(tier: str, seed: int):
                'transport': rng.choice(['unix', 'tcp']), 'mode': rng.choice(['local', 'local', 'remote'])}
 
 
+    # web routes and reverse-proxy routes on one connection, in every order
+    for k in range(150 if tier == 'quick' else 3000):
+        nreq = rng.choice([2, 2, 3, 4])
+        reqs = [{'rid': 'x%d-%d' % (k, j), 'to': rng.choice(['WA', 'WB', 'A', 'B', 'L']), 'method': rng.choice(['GET', 'GET', 'POST'])} for j in range(nreq)]
+        if k % 3 == 0:
+            reqs[0]['to'] = rng.choice(['WA', 'WB'])
+            reqs[1]['to'] = rng.choice(['A', 'B'])
+        for r_ in reqs:
+            if r_['method'] == 'POST':
+                r_['body'] = 'p' * rng.choice([0, 5, 300])
+        if rng.random() < 0.2:
+            reqs[-1]['last'] = rng.choice(['close', 'http10'])
+        yield {'seed': seed, 'i': n + 1000 + k, 'role': 'mixed', 'packing': rng.choice(['keepalive', 'keepalive', 'per-request', 'overlap']), 'requests': reqs,
+               'ncuts': rng.choice([0, 0, 2]), 'answer_p': rng.choice([1.0, 0.7]), 'transport': rng.choice(['unix', 'tcp']),
+               'mode': rng.choice(['local', 'local', 'remote'])}
     # deep pipelines: very many tiny requests inside one read
     for k in range(6 if tier == 'quick' else 60):
         nreq = rng.choice([300, 1200, 2500])
@@ -400,7 +432,7 @@ def cases(tier: str, seed: int):
 
 
 def floors(tier: str) -> Dict[str, int]:
-    return {'histories>=3': 200, 'packing:packed': 150, 'role:forward': 50, 'role:web': 50, 'role:reverse': 50,
+    return {'histories>=3': 200, 'packing:packed': 150, 'role:forward': 50, 'role:web': 50, 'role:reverse': 50, 'role:mixed': 100,
             'responses_matched': 300, 'multi_target': 30, 'last_request_asks_close': 100, 'packing:overlap': 50, 'unrouted_followups_checked': 10, 'with_body': 100, 'distinct:schedules': 200}
 
 
